@@ -77,6 +77,7 @@ type scenario struct {
 	Cfg    cfgSpec           `json:"cfg"`
 	Cl     clientSpec        `json:"cl"`
 	Hd     handlerSpec       `json:"hd"`
+	WatchPool  bool          `json:"watchpool"`  // record the pool hook's events for this RPC's Transcoder
 	EmptyFirst bool          `json:"emptyfirst"` // message 1 is the empty message (zero-length payload)
 	Msgs   map[string]string `json:"msgs,omitempty"` // id -> kind class ("" = harness picks by seed)
 	Params map[string]any    `json:"params,omitempty"`
